@@ -20,6 +20,7 @@ func flushMemstoreContinuously(db *DB) {
 			if err != nil {
 				return err
 			}
+			verifPoint("flusher.done")
 		}
 		return nil
 	}(db)
@@ -40,6 +41,7 @@ func executeFlush(db *DB, flushAction memStoreFlushAction) error {
 	}
 
 	start := time.Now()
+	verifPoint("flush.begin")
 
 	gen := atomic.AddUint64(&db.currentGeneration, uint64(1))
 	writePath := filepath.Join(db.basePath, fmt.Sprintf(SSTablePattern, gen))
@@ -81,6 +83,7 @@ func executeFlush(db *DB, flushAction memStoreFlushAction) error {
 
 	// add the newly created reader into the rotation
 	// note that this CAN block here waiting on a current compaction to finish
+	verifPoint("flush.beforeAddReader")
 	db.sstableManager.addReader(reader)
 
 	return nil
@@ -95,6 +98,7 @@ func (db *DB) rotateWalAndFlushMemstore() error {
 		memStore: swapMemstore(db),
 		walPath:  walPath,
 	}
+	verifPoint("rotate.handoff")
 	return nil
 }
 
